@@ -5,7 +5,8 @@ touched file.  Every check must still exit 0 (no VIOLATION, no UNDECIDED).  Resu
 import concurrent.futures as cf, json, os, re, shutil, subprocess, sys, tempfile
 ROOT = os.path.dirname(os.path.dirname(os.path.abspath(__file__)))
 jobs = int(sys.argv[1]) if len(sys.argv) > 1 else 3
-ids = sys.argv[2:] or sorted(f[:-5] for f in os.listdir(os.path.join(ROOT, "benign")) if f.endswith(".diff"))
+DIR = os.environ.get("BENIGN_DIR", "benign")
+ids = sys.argv[2:] or sorted(f[:-5] for f in os.listdir(os.path.join(ROOT, DIR)) if f.endswith(".diff"))
 READS = {   # which checks read which source file (functions under contract + inlined helpers)
     "parser.py": "C01 C02 C06 C07 C10", "receiver.py": "C01 C02 C06 C07 C10", "rfc7230.py": "C01 C06 C07 C10", "utilities.py": "C01 C02 C06 C07 C16",
     "channel.py": "C01 C03 C04 C05 C09 C11 C12 C13 C18 C19", "task.py": "C01 C03 C07 C08 C09 C14", "buffers.py": "C03 C04 C12 C17",
@@ -18,7 +19,7 @@ def run(bid):
     try:
         for sub in ("src", "docs"):
             shutil.copytree(os.path.join("/repo", sub), os.path.join(d, sub))
-        path = os.path.join(ROOT, "benign", bid + ".diff")
+        path = os.path.join(ROOT, DIR, bid + ".diff")
         p = subprocess.run(["patch", "-p1", "-s", "--no-backup-if-mismatch", "-i", path], cwd=d, capture_output=True, text=True)
         if p.returncode != 0:
             return bid, {"error": "patch failed: " + (p.stdout + p.stderr)[-300:]}
@@ -36,7 +37,7 @@ def run(bid):
         shutil.rmtree(d, ignore_errors=True)
 
 
-mp = os.path.join(ROOT, "benign", "matrix.json")
+mp = os.path.join(ROOT, DIR, "matrix.json")
 matrix = json.load(open(mp)) if os.path.exists(mp) else {}
 with cf.ThreadPoolExecutor(jobs) as ex:
     for bid, out in ex.map(run, ids):
